@@ -1,3 +1,8 @@
+-- All statements run in one transaction: if the server dies during the
+-- upgrade the database is still a complete version-1 database, and the next
+-- start simply upgrades it again.
+BEGIN;
+
 CREATE TABLE `client_versions`
 (
  `app_id` VARCHAR,
@@ -13,3 +18,5 @@ CREATE INDEX `client_versions_appid_time_idx` on `client_versions` (`app_id`, `c
 
 DELETE FROM `version`;
 INSERT INTO `version` (`version`) VALUES (2);
+
+COMMIT;
